@@ -39,6 +39,10 @@ PLAN = {
     "C01-E": ["C01", "C04"], "C01-F": ["C01"], "C03-E": ["C03"], "C03-F": ["C03"], "C14-E": ["C14"], "C14-F": ["C14"],
     "C12-E": ["C12"], "C12-F": ["C12", "C01"], "C08-E": ["C08"], "C08-F": ["C08"], "C19-E": ["C19"], "C19-F": ["C19"],
     "C06-G": ["C06"], "C06-H": ["C06"], "C15-G": ["C15"], "C15-H": ["C15"],
+    # seventh batch
+    "C14-G": ["C14"], "C14-H": ["C14"], "C13-G": ["C13", "C10"], "C13-H": ["C13", "C10"], "C10-G": ["C10"], "C10-H": ["C10", "C13"],
+    "C04-G": ["C04", "C02"], "C04-H": ["C06"], "C17-G": ["C17"], "C17-H": ["C17"], "C02-G": ["C02", "C04"], "C02-H": ["C02"],
+    "C16-G": ["C16", "C04"], "C16-H": ["C16"], "C05-G": ["C05", "C06"], "C05-H": ["C05", "C06"],
 }
 
 
